@@ -93,12 +93,17 @@ class C05(WigBedProp):
                     lines += [f"Q zoom {nm} {a} {c} #0" for (nm, a, c) in qs[::5]]
                     lines += [f"Q zoom {nm} 0 {sizes[nm]} #0" for nm in names]
                 out.append(CaseT(f"t{k}", "wig", [], lines, tags))
+        # index images no bigtools writer produces (big-endian, depth-first / reversed / index-before-data placement, other
+        # fan-outs): the readers' big-endian node decoders are reached only by these
+        out += self.foreign_cases(rng.fork("fw"), tier, False, 40, 250) + [c.copy(id="b" + c.id) for c in self.foreign_cases(rng.fork("fb"), tier, True, 40, 250)]
         return out
 
     def nontrivial(self, case, il):
         return "nt" in case.tags
 
     def oracle(self, case, il):
+        if case.kind in ("readwig", "readbed"):
+            return self.foreign_oracle(case, il)
         bad = bbgen.basic_ok(il)
         if bad:
             return bad
